@@ -314,13 +314,16 @@ prop(
     level="other",
     design_ref="DESIGN.md section 3, C19",
     groups=[(["./pipeline"], r"^\(\*Batch\)\.ForEach$"),
-            (["./plugin/output/elasticsearch"], r"^\(\*Plugin\)\.(sendSplit|appendIndexName|Start|Start\$1)$"),
-            (["./plugin/output/http"], r"^\(\*Plugin\)\.sendSplit$")],
+            (["./plugin/output/elasticsearch"], r"^\(\*Plugin\)\.(sendSplit|appendIndexName|appendEvent|out|out\$1|Start|Start\$1)$"),
+            (["./plugin/output/http", "./pipeline"], r"^\(\*Plugin\)\.(sendSplit|out|out\$1)$")],
     known_canaries=[("./plugin/output/elasticsearch", "replay/C19/zz_replay_c19_test.go", "TestVerifReplayC19IndexName")],
     claim=(
         "Proved: Batch.ForEach calls the callback for exactly the non-parent events, in index order (per-iteration obligation); Elasticsearch sendSplit and the http output's sendSplit (split_batch), for every pattern of failing / 413 / successful requests (DoTimeout is an arbitrary environment), "
         "sends contiguous ranges data[begin[l]:begin[r]] so that on success the accepted prefix advances exactly from begin[left] to begin[right] - the resent parts tile the batch exactly once - and a single event that is still too large returns the error (recursive calls use the contract); "
         "the ES error callback forwards each event of a failed batch to Router.Fail exactly once in order, and the retry loop's dead-queue flag and retry count are the router's / the configured ones. "
+        "Offset table (http and Elasticsearch out): the ForEach callback appends exactly one table entry and one newline-terminated encoding per deliverable event (closure contract: table invariant T(n) -> T(n+1), "
+        "begin[n] = old end of the buffer, buffer grows, last byte is a newline; ES appendEvent: action line + document line, each newline-terminated), the end offset is appended after the loop, and the call of sendSplit(0, eventsCount, begin, outBuf) "
+        "meets sendSplit's precondition (right < len(begin), entries nondecreasing and within the buffer) - so the proven tiling applies to the table the plugin really builds. "
         "KNOWN FINDING (open): appendIndexName splices the event's index field value into the action line unescaped."
     ),
     undecided=[
